@@ -370,17 +370,18 @@ def plan(ctx):
             if de in ("roc", "rocp", "rocr", "rocr100", "mom", "midpoint", "trima", "wma", "sma", "vwma") and not quick:
                 srcs = ALL_SRC if p % 7 == 0 else rng.sample(ALL_SRC, 2)
             for src in srcs:
-                j += 1
-                cs = {"kind": "window", "row": row, "p": p, "src": src, "series": pick_series(j)}
-                if deg == 1 and j % 5 == 0:
-                    cs["scale"] = 2.0 ** rng.choice([20, -20, 1])
-                cases.append(cs)
+                for rep in range(ctx.pick(1, 2)):
+                    j += 1
+                    cs = {"kind": "window", "row": row, "p": p, "src": src, "series": pick_series(j)}
+                    if deg == 1 and j % 5 == 0:
+                        cs["scale"] = 2.0 ** rng.choice([20, -20, 1])
+                    cases.append(cs)
     for row in SQUARES:
         for p in periods(2):
             for src in (PRICE_SRC if not quick else rng.sample(PRICE_SRC, 2)):
                 j += 1
                 cases.append({"kind": "window", "row": row + (0,), "p": p, "src": src, "series": pick_series(j), "cap": (5, 60)})
-    nlong = 300
+    nlong = ctx.pick(300, 600)
     for row in SMOOTH:
         de = row[0]
         for p in periods(3):
@@ -388,7 +389,9 @@ def plan(ctx):
             for src in srcs:
                 j += 1
                 kd = ["random", "trend", "alternating", "monotone", "spike"][j % (4 if de == "rsi" else 5)]
-                cs = {"kind": "smooth", "row": row, "p": p, "src": src, "series": (kd, nlong, 1 + j % 3)}
+                # definitions judged only after the seed bound has decayed need room for the decay
+                nn = ctx.pick(700, 1200) if (de in ("di_plus", "di_minus") or row[6] == 1) else nlong
+                cs = {"kind": "smooth", "row": row, "p": p, "src": src, "series": (kd, nn, 1 + j % 3)}
                 if de in ("ema", "wilders", "atr") and j % 4 == 0:
                     cs["scale"] = 2.0 ** rng.choice([20, -20])
                 cases.append(cs)
@@ -488,7 +491,8 @@ def judge(ctx, recs, parts, sensitivity=None):
                 c["id"] = len(recs) + r["id"]
                 falsified[c["id"]] = r
                 traces.append(c)
-    verdicts, results = tlc.validate_traces("TraceDefs", "TraceDefs.cfg", traces, ctx.scratch, parts=parts, timeout=1500)
+    verdicts, results = tlc.validate_traces("TraceDefs", "TraceDefs.cfg", traces, ctx.scratch, parts=parts, timeout=2400,
+                                             heap=ctx.pick("1g", "2g"), max_procs=ctx.pick(16, 12))
     for cid, r in falsified.items():
         d = r["t"]["hdr"]["def"]
         st = sensitivity.setdefault(d, [0, 0])
@@ -498,6 +502,8 @@ def judge(ctx, recs, parts, sensitivity=None):
     bad = 0
     for r in recs:
         l, v = verdicts[r["id"]]
+        if v.startswith("trace:"):
+            raise Machinery("malformed trace %s.%s: %s" % (r["ind"], r["field"], v))
         if v != "ok":
             bad += 1
             ctx.violation(sig_of(r, v), "%s(%s).%s vs definition '%s' on lattice series %s: %s" % (
@@ -542,7 +548,7 @@ def run(ctx):
         raise Machinery("too many cases raised (%d of %d): %s" % (len(skipped), len(cases), skipped[:5]))
     ctx.log("%d traces from %d indicator calls (%d cases raised)" % (len(recs), calls, len(skipped)))
     sens = {}
-    verdicts, results, bad = judge(ctx, recs, parts=16, sensitivity=sens)
+    verdicts, results, bad = judge(ctx, recs, parts=ctx.pick(16, 64), sensitivity=sens)
     blind = sorted(d for d, (rej, tot) in sens.items() if rej == 0)
     if blind:
         raise Machinery("TLC accepted every falsified trace of definition(s) %s: the comparison is vacuous" % blind)
